@@ -335,7 +335,7 @@ struct Outcome {
     problem: Option<String>,
 }
 
-async fn run_case(program: Arc<Program>, cmds: &[Cmd]) -> Outcome {
+async fn run_case(program: Arc<Program>, batches: &[Vec<Cmd>]) -> Outcome {
     let trace: Trace = Default::default();
     let shared = Shared { program: program.clone(), trace: trace.clone() };
     let lifecycle = TestLifecycle(shared).into_lifecycle();
@@ -415,34 +415,44 @@ async fn run_case(program: Arc<Program>, cmds: &[Cmd]) -> Outcome {
         }
     }
 
-    for cmd in cmds {
-        if std::env::var("C06_DEBUG").is_ok() { eprintln!("command {:?}", cmd); }
+    for batch in batches {
+        if std::env::var("C06_DEBUG").is_ok() { eprintln!("commands {:?}", batch); }
+        let cmd = batch;
+        // the commands of a batch are all sent before anything is awaited: the runtime picks the order
         let step = async {
-            match cmd {
-                Cmd::Set(l, v) => {
-                    let mut b = BytesMut::new();
-                    b.extend_from_slice(v.to_string().as_bytes());
-                    vtx[*l].send(LaneRequest::Command(b)).await.ok()?;
-                    sync_value(&mut vtx[*l], &mut vrx[*l]).await.map(|_| ())
-                }
-                Cmd::Upd(l, k, v) => {
-                    mtx[*l].send(LaneRequest::Command(MapMessage::Update { key: *k, value: *v })).await.ok()?;
-                    sync_map(&mut mtx[*l], &mut mrx[*l]).await
-                }
-                Cmd::Rem(l, k) => {
-                    let m: MapMessage<i64, i64> = MapMessage::Remove { key: *k };
-                    if let Err(e) = mtx[*l].send(LaneRequest::Command(m)).await {
-                        if std::env::var("C06_DEBUG").is_ok() { eprintln!("send error: {:?}", e); }
-                        return None;
+            let mut vals = std::collections::BTreeSet::new();
+            let mut maps = std::collections::BTreeSet::new();
+            for cmd in batch {
+                match cmd {
+                    Cmd::Set(l, v) => {
+                        let mut b = BytesMut::new();
+                        b.extend_from_slice(v.to_string().as_bytes());
+                        vtx[*l].send(LaneRequest::Command(b)).await.ok()?;
+                        vals.insert(*l);
                     }
-                    sync_map(&mut mtx[*l], &mut mrx[*l]).await
-                }
-                Cmd::Clr(l) => {
-                    let m: MapMessage<i64, i64> = MapMessage::Clear;
-                    mtx[*l].send(LaneRequest::Command(m)).await.ok()?;
-                    sync_map(&mut mtx[*l], &mut mrx[*l]).await
+                    Cmd::Upd(l, k, v) => {
+                        mtx[*l].send(LaneRequest::Command(MapMessage::Update { key: *k, value: *v })).await.ok()?;
+                        maps.insert(*l);
+                    }
+                    Cmd::Rem(l, k) => {
+                        let m: MapMessage<i64, i64> = MapMessage::Remove { key: *k };
+                        mtx[*l].send(LaneRequest::Command(m)).await.ok()?;
+                        maps.insert(*l);
+                    }
+                    Cmd::Clr(l) => {
+                        let m: MapMessage<i64, i64> = MapMessage::Clear;
+                        mtx[*l].send(LaneRequest::Command(m)).await.ok()?;
+                        maps.insert(*l);
+                    }
                 }
             }
+            for l in vals {
+                sync_value(&mut vtx[l], &mut vrx[l]).await?;
+            }
+            for l in maps {
+                sync_map(&mut mtx[l], &mut mrx[l]).await?;
+            }
+            Some(())
         };
         let r = tokio::select! {
             r = tokio::time::timeout(Duration::from_secs(10), step) => r,
@@ -593,7 +603,7 @@ impl<'a> Gen<'a> {
     }
 }
 
-fn gen_case(rng: &mut Rng, structured: bool) -> (Program, Vec<Cmd>) {
+fn gen_case(rng: &mut Rng, structured: bool) -> (Program, Vec<Vec<Cmd>>) {
     let mut g = Gen { rng, next_eff: 0, suspended: vec![], allow_fail: true, allow_suspend: true };
     let mut p = Program::default();
     let density = if structured { 1 } else { 2 };
@@ -624,15 +634,23 @@ fn gen_case(rng: &mut Rng, structured: bool) -> (Program, Vec<Cmd>) {
         p.on_stop = Some(g.handler(5, 2));
     }
     let n = g.rng.range(1, 5) as usize;
-    let mut cmds = vec![];
-    for i in 0..n {
-        let unique = 1000 + 10 * i as i64;
-        cmds.push(match g.rng.below(6) {
-            0 | 1 => Cmd::Set(if structured { 2 } else { g.rng.usize_below(3) }, unique),
-            2 | 3 => Cmd::Upd(if structured { 1 } else { g.rng.usize_below(2) }, g.rng.range(0, 2) as i64, unique),
-            4 => Cmd::Rem(g.rng.usize_below(2), g.rng.range(0, 2) as i64),
-            _ => Cmd::Clr(g.rng.usize_below(2)),
-        });
+    let mut cmds: Vec<Vec<Cmd>> = vec![];
+    let mut unique = 1000i64;
+    for _ in 0..n {
+        // a third of the time several commands are outstanding at once (values are unique, so that the order the
+        // runtime chose can be read off the trace)
+        let k = if g.rng.below(3) == 0 { g.rng.range(2, 4) as usize } else { 1 };
+        let mut batch = vec![];
+        for _ in 0..k {
+            unique += 10;
+            batch.push(match g.rng.below(if k > 1 { 4 } else { 6 }) {
+                0 | 1 => Cmd::Set(if structured { 2 } else { g.rng.usize_below(3) }, unique),
+                2 | 3 => Cmd::Upd(if structured { 1 } else { g.rng.usize_below(2) }, g.rng.range(0, 2) as i64, unique),
+                4 => Cmd::Rem(g.rng.usize_below(2), g.rng.range(0, 2) as i64),
+                _ => Cmd::Clr(g.rng.usize_below(2)),
+            });
+        }
+        cmds.push(batch);
     }
     p.suspended = g.suspended;
     (p, cmds)
@@ -696,12 +714,12 @@ fn cmd_h(c: &Cmd) -> H {
 /// of a command, the suspended handlers that began there are placed by the position of their first event
 /// relative to the command's own first event.  `true` marks a handler run for a lane command (a failure of
 /// such a handler is contained: the agent logs it and carries on).
-fn observed_tops(p: &Program, cmds: &[Cmd], out: &Outcome) -> Vec<(bool, H)> {
+fn observed_tops(p: &Program, cmds: &[Vec<Cmd>], out: &Outcome) -> Vec<(bool, H)> {
     let mut tops = vec![(false, p.on_start.clone().unwrap_or(H::Unit))];
     let begin_body = |i: usize| H::Seq(Box::new(H::Eff(BEGIN + i as u64)), Box::new(p.suspended[i].clone()));
     let len = out.trace.len();
     // windows: (lo, hi, the command run in it)
-    let mut windows: Vec<(usize, usize, Option<&Cmd>)> = vec![];
+    let mut windows: Vec<(usize, usize, Option<&Vec<Cmd>>)> = vec![];
     let mut lo = 0usize;
     for (w, hi) in out.marks.iter().enumerate() {
         let cmd = if w >= 1 && w - 1 < cmds.len() { Some(&cmds[w - 1]) } else { None };
@@ -725,26 +743,32 @@ fn observed_tops(p: &Program, cmds: &[Cmd], out: &Outcome) -> Vec<(bool, H)> {
                     tops.push((false, begin_body(*i)));
                 }
             }
-            Some(c) => {
-                let first = |e: &Ev| match (c, e) {
+            Some(batch) => {
+                let first = |c: &Cmd, e: &Ev| match (c, e) {
                     (Cmd::Set(l, v), Ev::OnEvent(l2, v2)) => l == l2 && v == v2,
                     (Cmd::Upd(l, k, v), Ev::OnUpdate(l2, k2, _, v2)) => l == l2 && k == k2 && v == v2,
                     (Cmd::Rem(l, k), Ev::OnRemove(l2, k2, _)) => l == l2 && k == k2,
                     (Cmd::Clr(l), Ev::OnClear(l2, _)) => l == l2,
                     _ => false,
                 };
-                let cpos = (lo..hi).find(|pos| first(&out.trace[*pos]));
-                let silent = matches!(c, Cmd::Rem(..));
-                let mut placed = false;
-                for (pos, i) in &begins {
-                    if !placed && cpos.map(|c| c < *pos).unwrap_or(false) {
-                        tops.push((true, cmd_h(c)));
-                        placed = true;
+                // (position of the first event, what ran): commands and suspended handlers of this window
+                let mut order: Vec<(usize, usize, (bool, H))> = vec![];
+                for (n, c) in batch.iter().enumerate() {
+                    let cpos = (lo..hi).find(|pos| first(c, &out.trace[*pos]));
+                    let silent = matches!(c, Cmd::Rem(..));
+                    match cpos {
+                        Some(pos) => order.push((pos, n, (true, cmd_h(c)))),
+                        // a remove of an absent key leaves no trace and changes nothing: placed first
+                        None if silent && (hi < len || !out.failed) => order.push((lo, n, (true, cmd_h(c)))),
+                        None => {}
                     }
-                    tops.push((false, begin_body(*i)));
                 }
-                if !placed && (cpos.is_some() || (silent && hi < len) || (silent && !out.failed)) {
-                    tops.push((true, cmd_h(c)));
+                for (pos, i) in &begins {
+                    order.push((*pos, usize::MAX, (false, begin_body(*i))));
+                }
+                order.sort_by_key(|(pos, n, _)| (*pos, *n));
+                for (_, _, t) in order {
+                    tops.push(t);
                 }
             }
         }
@@ -790,8 +814,11 @@ fn main() {
         if p.suspended.iter().enumerate().any(|(i, _)| out.trace.contains(&Ev::Eff(BEGIN + i as u64))) {
             *kinds.entry("ran_suspended".into()).or_default() += 1;
         }
-        if depth > cmds.len() {
+        if depth > cmds.iter().map(|b| b.len()).sum::<usize>() {
             nontrivial += 1;
+        }
+        if cmds.iter().any(|b| b.len() > 1) {
+            *kinds.entry("concurrent_commands".into()).or_default() += 1;
         }
         let term = format!(
             "{{| hc_lc := mk_lc {} {} {} {} {}; hc_tops := {}; hc_failed := {}; hc_trace := {}; hc_values_after := {}; hc_values := {} |}}",
@@ -818,7 +845,7 @@ fn main() {
     let meta = J::obj(vec![
         ("evaluations", J::I(w.len() as i128)),
         ("distinct_nontrivial", J::I(nontrivial as i128)),
-        ("rule", J::s("generated handler programs (effects, get / set / copy on three value lanes, get / update / remove / clear on two map lanes, followed_by and and_then compositions, failing handlers, suspended futures that yield 0-2 times) as the bodies of on_start, on_stop and of every lane's on_event / on_set / on_update / on_remove / on_clear, acyclic by rank; 1-5 commands sent to the lanes of a real AgentModel task one at a time (each followed by a sync); the recorded trace, the failure flag and the final lane values must be what the model's run_handler machine and the reference interpreter compute for the top-level handlers in the order the runtime ran them; non-trivial = a cascade (more lifecycle events than commands)")),
+        ("rule", J::s("generated handler programs (effects, get / set / copy on three value lanes, get / update / remove / clear on two map lanes, followed_by and and_then compositions, failing handlers, suspended futures that yield 0-2 times) as the bodies of on_start, on_stop and of every lane's on_event / on_set / on_update / on_remove / on_clear, acyclic by rank; 1-5 rounds of commands sent to the lanes of a real AgentModel task, a round being one command or 2-4 commands outstanding at once, each round followed by a sync of the lanes used; the recorded trace, the failure flag and the final lane values must be what the model's run_handler machine and the reference interpreter compute for the top-level handlers in the order the runtime ran them; non-trivial = a cascade (more lifecycle events than commands)")),
         ("structures", J::counts(&kinds)),
         ("samples", J::A(samples)),
         ("direct_failures", J::A(failures.iter().take(40).map(|f| J::s(f.chars().take(600).collect::<String>())).collect())),
